@@ -12,18 +12,18 @@ type ExecEntry struct {
 // Process is a simulated OS process: one task, its ends of the stdio pipes,
 // an exit status. Exiting closes its pipe ends, as the kernel would.
 type Process struct {
-	Pid    int
-	Name   string
-	Path   string
-	Args   []string
-	Stdin  *PipeReader // nil => /dev/null
-	Stdout *PipeWriter // nil => /dev/null
-	Exited bool
-	Status int
-	Reaped bool
-	Task   *Task
-	User   interface{} // world-specific per-process log
-	carrier byte       // race-detector carrier: process exit happens before a successful wait
+	Pid     int
+	Name    string
+	Path    string
+	Args    []string
+	Stdin   *PipeReader // nil => /dev/null
+	Stdout  *PipeWriter // nil => /dev/null
+	Exited  bool
+	Status  int
+	Reaped  bool
+	Task    *Task
+	User    interface{} // world-specific per-process log
+	carrier byte        // race-detector carrier: process exit happens before a successful wait
 }
 
 // SetStatus / ExitStatus keep the exit status out of the race detector's sight
